@@ -108,6 +108,7 @@ func (bs *filesystemPartStore) PutPart(ctx context.Context, tx database.Tx, part
 			} else if !errors.Is(err, fs.ErrNotExist) {
 				return err
 			}
+			_ = database.VerifPoint(ctx, "fs.putpart.between-renames", 0)
 			if err := os.Rename(tempName, filename); err != nil {
 				if backupCreated {
 					_ = os.Rename(backupName, filename)
